@@ -29,7 +29,7 @@ PROBES = ['get-readable', 'get-write-only-refused', 'set-writable', 'set-read-on
           'local-assign-silent', 'remote-set-emits', 'same-name-two-interfaces',
           'inherited-property', 'empty-interface-name', 'get-after-remote-set',
           'two-instances-of-one-class', 'exported-on-an-older-connection-first',
-          'properties-declared-on-abstract-class', 'own-interface-has-get-set-getall', 'unencodable-assignment-then-valid-one', 'wrapper-of-another-type-assigned', 'misdeclared-sibling-rejected-first']
+          'properties-declared-on-abstract-class', 'own-interface-has-get-set-getall', 'unencodable-assignment-then-valid-one', 'wrapper-of-another-type-assigned', 'property-holds-an-unencodable-value', 'misdeclared-sibling-rejected-first']
 COMPONENTS = {
     'real': ['txdbus.objects.DBusProperty / DBusObject (_dbus_PropertyGet/Set/GetAll, '
              'getAllProperties, emitSignal)', 'DBusObjectHandler dispatch',
@@ -39,6 +39,9 @@ COMPONENTS = {
 ASSUMPTIONS = ['container-typed properties hold non-empty values (txdbus infers variant types from '
                'the first element; the statement promises the exact type for basic types only)']
 PROPS_IFACE = 'org.freedesktop.DBus.Properties'
+
+
+GARBAGE = object()
 
 
 def scenario(ctx):
@@ -174,6 +177,16 @@ def scenario(ctx):
         ps, _, acc, em = rec['reg'][k]
         ref, pyv = gen.prop_value(ds, ps)
         drain_sent()
+        if em != 'true' and acc != 'write' and (len(ps) > 1 or ps == 'v') and ds.flag(0.08):
+            # the application leaves something in a container-typed property that cannot be
+            # encoded (None: reset, not yet known): whoever asks for it gets an error reply - a
+            # reply - until a proper value is assigned again
+            sim.probe('property-holds-an-unencodable-value')
+            sim.log('op', 'assign-garbage', p, k[0], k[1])
+            rig.call(setattr, rec['obj'], rec['cs'].attr(*k), None)
+            rec['reg'][k][1] = GARBAGE
+            check_changed(drain_sent(), p, [])
+            return
         if em == 'true' and ps in 'nqiuxtyd' and ds.flag(0.12):
             # first a value that cannot be announced as the declared type: the assignment fails;
             # the valid one that follows is announced like any other
@@ -299,6 +312,8 @@ def scenario(ctx):
             if q['variant'] == 2:
                 q['exp'] = ('getall', {})      # unknown interface: empty or error (either)
                 q['either_error'] = True
+            elif any(v[1] is GARBAGE for k, v in rec['reg'].items() if k[0] == iname and v[2] != 'write'):
+                q['exp'] = ('error',)
             else:
                 q['exp'] = ('getall', {k[1]: (v[0], v[1]) for k, v in rec['reg'].items()
                                        if k[0] == iname and v[2] != 'write'})
@@ -325,7 +340,7 @@ def scenario(ctx):
                 sim.probe('get-readable')
                 if rec.get('remote_set') == key:
                     sim.probe('get-after-remote-set')
-                q['exp'] = ('value', ps, ref)
+                q['exp'] = ('value', ps, ref) if ref is not GARBAGE else ('error',)
             sim.state(('get', acc, em, q['exp'][0]))
         else:
             if acc == 'read':
